@@ -47,7 +47,8 @@ let seq_case _ line =
     let ms = List.mapi (fun i v -> (i, int_of_z v)) st'.mem in
     let ms = List.filter (fun (i, v) -> v <> int_of_z mem.(i)) ms in
     let p l = String.concat "," (List.map (fun (a, b) -> Printf.sprintf "%d:%d" a b) l) in
-    Printf.printf "ok steps=%d r=%s m=%s acc=%s\n" (List.length tr) (p rs) (p ms) (Buffer.contents acc)
+    let h = List.fold_left (fun h pc -> (h * 1000003 + int_of_z pc + 1) land 0x3fffffffffffff) 7 (List.rev tr) in
+    Printf.printf "ok steps=%d r=%s m=%s acc=%s path=%d\n" (List.length tr) (p rs) (p ms) (Buffer.contents acc) h
   | Done (st', tr) ->
     let rs = List.mapi (fun i v -> (i, int_of_z v)) st'.regs in
     let rs = List.filter (fun (i, v) -> v <> 0 && i <> 0) rs in
